@@ -1,4 +1,5 @@
 import Model.Basic
+import Model.Generated.MleSite
 /-!
 Model of the reversible maximum-likelihood estimator (Prinz iteration):
 `enspara.msm.builders._prinz_mle_py` (builders.py L215-318) and
@@ -88,10 +89,30 @@ def newV (sqrt : α → α) (C : Mat α n) (Crs : Vec α n) (st : St α n) (i j 
   let c := coefC C st i j
   if a == 0 then mget st.X j i else (-b + sqrt (b * b - (4 * a) * c)) / (2 * a)
 
+/-- `newV` with an explicitly given `c` (the code may have reset `c` to 0, see `guardC`) -/
+def newVWith (sqrt : α → α) (C : Mat α n) (Crs : Vec α n) (st : St α n) (i j : Fin n) (c : α) : α :=
+  let a := coefA C Crs i j
+  let b := coefB C Crs st i j
+  if a == 0 then mget st.X j i else (-b + sqrt (b * b - (4 * a) * c)) / (2 * a)
+
+variable [OfScientific α]
+
+/-- the rounding guard in front of the assertion (present in both sources when
+`Generated.MleSite.cRoundingGuard`):
+`if 0 < c <= 1e-9 * (C[i,j] + C[j,i]) * X_rs[i] * X_rs[j]: c = 0.0`.
+`X_rs` holds running sums, so for a state whose only partner is `j` the difference
+`X_rs[i] - X[i,j]` is zero only up to rounding.  In exact arithmetic `c ≤ 0` (`coefC_nonpos`), so
+the guard never fires there. -/
+def guardC (C : Mat α n) (st : St α n) (i j : Fin n) (c : α) : α :=
+  if Ens.Generated.MleSite.cRoundingGuard then
+    if 0 < c ∧ c ≤ ((1e-9 * (mget C i j + mget C j i)) * vget st.rs i) * vget st.rs j then 0 else c
+  else c
+
 def pairStep (sqrt : α → α) (C : Mat α n) (Crs : Vec α n) (st : St α n) (i j : Fin n) :
     Except Err (St α n) :=
-  if coefC C st i j ≤ 0 then
-    let v := newV sqrt C Crs st i j
+  let c := guardC C st i j (coefC C st i j)
+  if c ≤ 0 then
+    let v := newVWith sqrt C Crs st i j c
     let rs1 := vset st.rs i (vget st.rs i + (v - mget st.X i j))
     let rs2 := vset rs1 j (vget rs1 j + (v - mget st.X j i))
     .ok { X := mset (mset st.X i j v) j i v, rs := rs2 }
